@@ -76,6 +76,11 @@ func zzC06_retain() {
 	for i := 0; i < later; i++ {
 		_, _ = ReadMessage(r, d)
 	}
+	// (and a write of an unrelated message through the library's pooled serialisation buffers)
+	other := NewMessage(257, 0x80, app, 5, 6, d)
+	other.NewAVP(vU32("othercode"), 0, 0, datatype.OctetString(vBytes("otherpayload", 8+pl)))
+	var sink zzRecWriter
+	_, _ = other.WriteTo(&sink)
 	// ... the retained message is unchanged
 	vAssert(*m1.Header == snapHdr, "retained header unchanged")
 	vAssert(m1.AVP[0].Code == snapCode && m1.AVP[0].Flags == snapFlags && m1.AVP[0].VendorID == snapVendor, "retained AVP header fields unchanged")
